@@ -401,3 +401,219 @@ Proof.
   destruct (fb_ok_set_pixel c data (fst o) (snd o) Ok Ho) as [Ok' _].
   unfold fb_draw_iter in IH. rewrite IH by auto. apply fb_tail_untouched; auto.
 Qed.
+
+(* ======================================================================================================
+   Drawing as_image(): the colour stream ContiguousPixels hands to fill_contiguous
+   ====================================================================================================== *)
+(* rows of w items, each preceded by rs skipped items *)
+Fixpoint rows_from (w rs : nat) (k : nat) (l : list Z) : list Z :=
+  match k with
+  | O => []
+  | Datatypes.S k' => firstn w (skipn rs l) ++ rows_from w rs k' (skipn (rs + w) l)
+  end.
+
+Lemma skipn_cons_nth {A} (l : list A) n a : nth_error l n = Some a -> skipn n l = a :: skipn (Datatypes.S n) l.
+Proof.
+  revert n; induction l as [|x l IH]; intros [|n] H; cbn [nth_error] in H; try discriminate.
+  - inversion H. reflexivity.
+  - cbn [skipn]. rewrite (IH n H). reflexivity.
+Qed.
+
+Lemma skipn_skipn' {A} (l : list A) x y : skipn x (skipn y l) = skipn (y + x) l.
+Proof.
+  revert l; induction y as [|y IH]; intros l; [reflexivity|]. destruct l as [|a l]; cbn [skipn Nat.add].
+  - destruct x; reflexivity.
+  - apply IH.
+Qed.
+
+Lemma cpix_collect_spec t alt (w rs : nat) : (0 < w)%nat ->
+  forall k x fuel s l,
+    cp_width s = Z.of_nat w -> cp_row_skip s = Z.of_nat rs ->
+    cp_rem_x s = Z.of_nat x -> cp_rem_y s = Z.of_nat k ->
+    it_ok (cp_iter s) -> iter_list t alt (cp_iter s) = Some l ->
+    (x + k * (rs + w) <= length l)%nat -> (x + k * w < fuel)%nat ->
+    cpix_collect t alt fuel s = Some (firstn x l ++ rows_from w rs k (skipn x l)).
+Proof.
+  intros Hw. induction k as [|k IHk].
+  - (* last row *)
+    induction x as [|x IHx]; intros fuel s l Ew Er Ex Ey Ok El Hlen Hf; (destruct fuel as [|fuel]; [lia|]);
+      cbn [cpix_collect]; unfold cpix_next.
+    + replace (0 <? cp_rem_x s) with false by lia. replace (cp_rem_y s =? 0) with true by lia. reflexivity.
+    + replace (0 <? cp_rem_x s) with true by lia.
+      destruct (next_steps t alt (cp_iter s) l Ok El) as (A & B & _ & D).
+      destruct l as [|a l']; [cbn [length] in Hlen; lia|]. cbn [hd_error tl] in *.
+      destruct (iter_next t alt (cp_iter s)) as [r1 r2]. cbn [fst snd] in *. subst r1.
+      cbn [length] in Hlen.
+      rewrite (IHx fuel (CPix r2 (cp_rem_x s - 1) (cp_width s) (cp_rem_y s) (cp_row_skip s)) l');
+        [reflexivity | cbn [cp_iter cp_rem_x cp_width cp_rem_y cp_row_skip]; auto; lia ..].
+  - induction x as [|x IHx]; intros fuel s l Ew Er Ex Ey Ok El Hlen Hf; (destruct fuel as [|fuel]; [lia|]);
+      cbn [cpix_collect]; unfold cpix_next.
+    + replace (0 <? cp_rem_x s) with false by lia. replace (cp_rem_y s =? 0) with false by lia.
+      destruct (nth_skips t alt (cp_iter s) (cp_row_skip s) l Ok ltac:(lia) El) as (A & B & _ & D & _).
+      replace (Z.to_nat (cp_row_skip s)) with rs in * by lia.
+      destruct (nth_error l rs) as [a|] eqn:En; [|apply nth_error_None in En; lia].
+      destruct (iter_nth t alt (cp_iter s) (cp_row_skip s)) as [r1 r2]. cbn [fst snd] in *. subst r1.
+      rewrite (IHk (w - 1)%nat fuel (CPix r2 (cp_width s - 1) (cp_width s) (cp_rem_y s - 1) (cp_row_skip s))
+                   (skipn (Datatypes.S rs) l));
+        [| cbn [cp_iter cp_rem_x cp_width cp_rem_y cp_row_skip]; auto; try rewrite skipn_length; lia ..].
+      change (skipn 0 l) with l. cbn [firstn app option_map rows_from]. f_equal.
+      rewrite (skipn_cons_nth l rs a En).
+      destruct w as [|w']; [lia|]. cbn [firstn]. replace (Datatypes.S w' - 1)%nat with w' by lia.
+      rewrite <- app_comm_cons. f_equal. f_equal. f_equal. rewrite skipn_skipn'. f_equal. lia.
+    + replace (0 <? cp_rem_x s) with true by lia.
+      destruct (next_steps t alt (cp_iter s) l Ok El) as (A & B & _ & D).
+      destruct l as [|a l']; [cbn [length] in Hlen; lia|]. cbn [hd_error tl] in *.
+      destruct (iter_next t alt (cp_iter s)) as [r1 r2]. cbn [fst snd] in *. subst r1.
+      cbn [length] in Hlen.
+      rewrite (IHx fuel (CPix r2 (cp_rem_x s - 1) (cp_width s) (cp_rem_y s) (cp_row_skip s)) l');
+        [reflexivity | cbn [cp_iter cp_rem_x cp_width cp_rem_y cp_row_skip]; auto; lia ..].
+Qed.
+
+Lemma length_rows_from w rs k l : (k * (rs + w) <= length l)%nat -> length (rows_from w rs k l) = (k * w)%nat.
+Proof.
+  revert l; induction k as [|k IH]; intros l H; [reflexivity|]. cbn [rows_from].
+  rewrite app_length, firstn_length, skipn_length, IH by (rewrite skipn_length; lia). lia.
+Qed.
+
+Lemma nth_rows_from w rs k : forall l y x,
+  (k * (rs + w) <= length l)%nat -> (y < k)%nat -> (x < w)%nat ->
+  nth_error (rows_from w rs k l) (y * w + x) = nth_error l (rs + y * (rs + w) + x).
+Proof.
+  induction k as [|k IH]; intros l y x Hl Hy Hx; [lia|]. cbn [rows_from].
+  assert (Lf : length (firstn w (skipn rs l)) = w) by (rewrite firstn_length, skipn_length; lia).
+  destruct y as [|y].
+  - rewrite nth_error_app1 by lia. cbn [Nat.mul Nat.add]. rewrite nth_error_firstn'.
+    replace (x <? w)%nat with true by lia. rewrite nth_error_skipn'. f_equal. lia.
+  - rewrite nth_error_app2 by lia. rewrite Lf.
+    replace (Datatypes.S y * w + x - w)%nat with (y * w + x)%nat by lia.
+    rewrite IH by (try rewrite skipn_length; lia). rewrite nth_error_skipn'. f_equal. lia.
+Qed.
+
+Lemma idx_conv1 w c x : 0 <= w -> 0 <= c -> 0 <= x ->
+  Z.to_nat ((c + 1) * w + x) = (Z.to_nat c * Z.to_nat w + Z.to_nat x + Z.to_nat w)%nat.
+Proof.
+  intros. apply Nat2Z.inj. rewrite !Nat2Z.inj_add, Nat2Z.inj_mul, !Z2Nat.id by nia. ring.
+Qed.
+
+Lemma idx_conv2 w b c x : 0 <= w -> 0 <= b -> 0 <= c -> 0 <= x ->
+  Z.to_nat ((c + 1) * (b + w) + x) =
+  (Z.to_nat w + (Z.to_nat b + Z.to_nat c * (Z.to_nat b + Z.to_nat w) + Z.to_nat x))%nat.
+Proof.
+  intros. apply Nat2Z.inj. rewrite !Nat2Z.inj_add, Nat2Z.inj_mul, !Nat2Z.inj_add, !Z2Nat.id by nia. ring.
+Qed.
+
+(* the stream of a whole image whose raw iterator has enough items: w * h colours, colour (x, y) is raw item
+   y * data_width + x *)
+Lemma image_draw_colors_spec im l :
+  0 <= img_w im -> 0 <= img_h im -> img_h im <= u32_max -> img_w im <= data_width im ->
+  len_ok (img_data im) ->
+  iter_list (img_t im) (img_alt im) (iter_new (img_data im)) = Some l ->
+  img_h im * data_width im <= Z.of_nat (length l) ->
+  exists cols, image_draw_colors im = Some cols /\
+    Z.of_nat (length cols) = img_w im * img_h im /\
+    forall x y, 0 <= x < img_w im -> 0 <= y < img_h im ->
+      nth_error cols (Z.to_nat (y * img_w im + x)) = nth_error l (Z.to_nat (y * data_width im + x)).
+Proof.
+  intros Hw Hh Hh32 Hdw Hl El Hlen. unfold image_draw_colors, cpix_new.
+  replace (0 <? 0) with false by reflexivity.
+  set (t := img_t im) in *. set (alt := img_alt im) in *. set (w := img_w im) in *. set (h := img_h im) in *.
+  set (dw := data_width im) in *.
+  destruct (Z.eq_dec w 0) as [W0|W0]; [|destruct (Z.eq_dec h 0) as [H0|H0]].
+  - (* zero width *)
+    exists []. replace (0 <? w) with false by lia. rewrite W0.
+    cbn [cpix_collect]. unfold cpix_next. cbn [cp_rem_x cp_rem_y].
+    replace (0 <? (if 0 <? h then 0 else 0)) with false by (destruct (0 <? h); reflexivity).
+    cbn. split; [reflexivity|]. split; [lia|]. intros; lia.
+  - (* zero height *)
+    exists []. replace (0 <? h) with false by lia. rewrite H0.
+    cbn [cpix_collect]. unfold cpix_next. cbn [cp_rem_x cp_rem_y].
+    replace (0 <? 0) with false by reflexivity.
+    replace ((if 0 <? w then sat_sub_u32 0 1 else 0) =? 0) with true
+      by (destruct (0 <? w); reflexivity).
+    split; [reflexivity|]. split; [cbn; lia|]. intros; lia.
+  - replace (0 <? w) with true by lia. replace (0 <? h) with true by lia.
+    assert (Es : sat_sub_u32 h 1 = h - 1) by (unfold sat_sub_u32; lia). rewrite Es.
+    pose proof (cpix_collect_spec t alt (Z.to_nat w) (Z.to_nat (dw - w)) ltac:(lia)
+                  (Z.to_nat (h - 1)) (Z.to_nat w) (Datatypes.S (Z.to_nat (w * h)))
+                  (CPix (iter_new (img_data im)) w w (h - 1) (dw - w)) l) as S.
+    cbn [cp_iter cp_rem_x cp_width cp_rem_y cp_row_skip] in S.
+    assert (N1 : (Z.to_nat w + Z.to_nat (h - 1) * (Z.to_nat (dw - w) + Z.to_nat w) <= length l)%nat).
+    { replace (Z.to_nat (dw - w) + Z.to_nat w)%nat with (Z.to_nat dw) by lia. nia. }
+    rewrite S; try lia; auto; [| apply iter_new_ok; auto | nia].
+    eexists. split; [reflexivity|].
+    assert (N2 : (Z.to_nat (h - 1) * (Z.to_nat (dw - w) + Z.to_nat w) <= length (skipn (Z.to_nat w) l))%nat)
+      by (rewrite skipn_length; lia).
+    assert (Lf : length (firstn (Z.to_nat w) l) = Z.to_nat w) by (rewrite firstn_length; lia).
+    split.
+    + rewrite app_length, Lf, length_rows_from by auto. nia.
+    + intros x y Hx Hy. destruct (Z.eq_dec y 0) as [->|Y0].
+      * rewrite !Z.mul_0_l, !Z.add_0_l. rewrite nth_error_app1 by lia.
+        rewrite nth_error_firstn'. replace (Z.to_nat x <? Z.to_nat w)%nat with true by lia. reflexivity.
+      * assert (E1 : Z.to_nat (y * w + x) = (Z.to_nat (y - 1) * Z.to_nat w + Z.to_nat x + Z.to_nat w)%nat).
+        { rewrite <- idx_conv1 by lia. f_equal. ring. }
+        assert (E2 : Z.to_nat (y * dw + x) =
+                     (Z.to_nat w + (Z.to_nat (dw - w) + Z.to_nat (y - 1) * (Z.to_nat (dw - w) + Z.to_nat w) + Z.to_nat x))%nat).
+        { rewrite <- idx_conv2 by lia. f_equal. ring. }
+        assert (Hy1 : (Z.to_nat (y - 1) < Z.to_nat (h - 1))%nat) by lia.
+        assert (Hx1 : (Z.to_nat x < Z.to_nat w)%nat) by lia.
+        rewrite E1, E2. clear E1 E2. generalize dependent (Z.to_nat (y - 1)). intros y1 Hy1.
+        set (P := (y1 * Z.to_nat w)%nat).
+        rewrite nth_error_app2 by (rewrite Lf; lia). rewrite Lf.
+        replace (P + Z.to_nat x + Z.to_nat w - Z.to_nat w)%nat with (P + Z.to_nat x)%nat by lia. subst P.
+        rewrite nth_rows_from by auto. rewrite nth_error_skipn'. reflexivity.
+Qed.
+
+Lemma fb_total_eq c :
+  0 <= fb_w c -> 0 <= fb_h c -> pixels_total (fb_t c) (fb_buffer_size c) = fb_h c * fb_data_width c.
+Proof.
+  intros Hw Hh. unfold fb_data_width, fb_buffer_size, buffer_size_bpp, bytes_per_row, pixels_total.
+  destruct c as [t alt w h]. cbn [fb_t fb_w fb_h] in *.
+  destruct t; cbn [bits];
+    repeat match goal with |- context [?a <? 8] => let b := eval vm_compute in (a <? 8) in change (a <? 8) with b end;
+    repeat match goal with |- context [8 <=? ?a] => let b := eval vm_compute in (8 <=? a) in change (8 <=? a) with b end;
+    cbv iota; divs.
+  - ring.
+  - ring.
+  - ring.
+  - replace ((w * 8 + 7) / 8) with w by lia. rewrite Z.div_1_r. ring.
+  - replace ((w * 16 + 7) / 8) with (w * 2) by lia. replace (w * 2 * h) with (h * w * 2) by ring. apply Z.div_mul. lia.
+  - replace ((w * 24 + 7) / 8) with (w * 3) by lia. replace (w * 3 * h) with (h * w * 3) by ring. apply Z.div_mul. lia.
+  - replace ((w * 32 + 7) / 8) with (w * 4) by lia. replace (w * 4 * h) with (h * w * 4) by ring. apply Z.div_mul. lia.
+Qed.
+
+(* drawing as_image(): fill_contiguous receives exactly WIDTH * HEIGHT colours, colour number y * WIDTH + x
+   is pixel (x, y) of the framebuffer *)
+Lemma fb_as_image_draw c data :
+  fb_ok c data ->
+  exists im cols,
+    fb_as_image c data = Some im /\ image_draw_colors im = Some cols /\
+    Z.of_nat (length cols) = fb_w c * fb_h c /\
+    forall x y, 0 <= x < fb_w c -> 0 <= y < fb_h c ->
+      fb_pixel c data (x, y) = Pix (nth_error cols (Z.to_nat (y * fb_w c + x))).
+Proof.
+  intros Ok. pose proof Ok as (Hw & Hh & Hb & Hl & Hn).
+  pose proof (buffer_size_nonneg c (proj1 Hw) (proj1 Hh)) as H0.
+  set (d := firstn (Z.to_nat (fb_buffer_size c)) data).
+  set (im := Img (fb_t c) (fb_alt c) d (fb_w c) (fb_h c)).
+  assert (BL : buf_len d = fb_buffer_size c) by (apply buf_len_firstn; lia).
+  assert (Ld : len_ok d) by (unfold len_ok in *; lia).
+  destruct (iter_is_loads (fb_t c) (fb_alt c) (iter_new d) (iter_new_ok d Ld)) as (l & El & _ & Len).
+  unfold it_total in Len. cbn [iter_new it_data it_index] in Len. rewrite BL, fb_total_eq in Len by lia.
+  assert (DW : data_width im = fb_data_width c) by reflexivity.
+  pose proof (data_width_ge c (proj1 Hw)) as Ge.
+  assert (P3 : img_h im <= u32_max) by (cbn [img_h im]; unfold i32_max, u32_max in *; lia).
+  assert (P4 : img_w im <= data_width im) by (rewrite DW; exact Ge).
+  assert (P7 : img_h im * data_width im <= Z.of_nat (length l)).
+  { rewrite DW. cbn [img_h im]. assert (0 <= fb_h c * fb_data_width c) by nia. lia. }
+  destruct (image_draw_colors_spec im l (proj1 Hw) (proj1 Hh) P3 P4 Ld El P7) as (cols & E1 & E2 & E3).
+  exists im, cols. split; [apply as_image_ok; auto|]. split; [exact E1|]. split; [exact E2|].
+  intros x y Hx Hy. cbn [img_w img_h] in E3. rewrite E3 by auto. rewrite DW.
+  rewrite fb_pixel_is_load by auto.
+  assert (In : fb_inside c (x, y)) by (split; auto).
+  replace (fb_insideb c (x, y)) with true by (symmetry; apply fb_insideb_iff; auto).
+  pose proof (pix_index_range c (x, y) (proj1 Hw) (proj1 Hh) In) as R. f_equal.
+  rewrite (items_nth (fb_t c) (fb_alt c) (iter_new d) l _ (iter_new_ok d Ld) El).
+  cbn [iter_new it_data it_index]. rewrite Z.add_0_l.
+  assert (Pi : pix_index c (x, y) = y * fb_data_width c + x) by (unfold pix_index; cbn [fst snd]; ring).
+  rewrite Z2Nat.id by lia. rewrite <- Pi. unfold d. symmetry. apply load_prefix; auto; lia.
+Qed.
